@@ -405,7 +405,7 @@ func clChecksumSampledBeforeClose(c *Ctx) {
 	for _, s := range p.AllCallSites(wi) {
 		if al, ok := strip(callArgs(s)[1]).(*ssa.Alloc); ok {
 			_ = al
-			c.Check(s.Parent() == cl, s.Parent(), s, "terminator (empty item) written only by Close", "a zero-length item in the middle of a shard is read as end of stream: the rest of the shard is silently dropped")
+			c.Check(p.sameRoot(s.Parent(), cl), s.Parent(), s, "terminator (empty item) written only by Close", "a zero-length item in the middle of a shard is read as end of stream: the rest of the shard is silently dropped")
 		}
 	}
 	// Close writes the terminator before flushing
@@ -535,7 +535,7 @@ func clKVHelpers(c *Ctx) {
 			f := formOf(args[1])
 			// value = uint16(len(k))
 			ln, isCall := strip(args[2]).(*ssa.Call)
-			okLen := isCall && isBuiltin(ln, "len") && strip(ln.Call.Args[0]) == ssa.Value(to.Params[0])
+			okLen := isCall && isBuiltin(ln, "len") && strip(ln.Call.Args[0]) == strip(to.Params[0])
 			okPut = f.ok && f.lowC == 0 && f.highC == 2 && f.lowPlus == nil && f.highPlus == nil && okLen
 		}
 		c.Check(okPut && order == "LittleEndian", to, put, "KVToBytes writes len(key) as 2-byte little-endian prefix in buf[0:2]", "the key length prefix written by KVToBytes is not what KVFromBytes/CompareKV decode")
@@ -546,7 +546,7 @@ func clKVHelpers(c *Ctx) {
 				apps = append(apps, call)
 			}
 		}
-		okApp := len(apps) == 2 && strip(apps[0].Call.Args[1]) == ssa.Value(to.Params[0]) && strip(apps[1].Call.Args[1]) == ssa.Value(to.Params[1]) &&
+		okApp := len(apps) == 2 && strip(apps[0].Call.Args[1]) == strip(to.Params[0]) && strip(apps[1].Call.Args[1]) == strip(to.Params[1]) &&
 			strip(apps[1].Call.Args[0]) == ssa.Value(apps[0])
 		c.Check(okApp, to, nil, "KVToBytes appends key, then value", "key and value are laid out in another order than KVFromBytes expects")
 		okHdr := false
@@ -560,7 +560,7 @@ func clKVHelpers(c *Ctx) {
 	// KVFromBytes: returns bs[2:2+klen], bs[2+klen:]
 	{
 		fi := p.Info(from)
-		bs := ssa.Value(from.Params[0])
+		bs := strip(from.Params[0])
 		for _, ret := range fi.Returns() {
 			if len(ret.Results) != 2 {
 				continue
